@@ -497,35 +497,49 @@ theorem ctfTR_zero_sound_partial (target : MG Name) (ds : List Domain) (o c : Ev
   · exact hν w.name e2.symm
   · exact hstar rfl
 
+/-- domains as declared carry a distribution over plain variables (`PopsPlain`: the hypothesis under which
+`OutcomesFound` is the only crash class of Algorithm 3, `ctfTR_no_internal_error_plain_partial`) -/
+theorem popsPlain_of_declared (ds : List Domain) (hdecl : DomainsDeclared ds) : PopsPlain ds := by
+  intro d hd
+  obtain ⟨t, ht⟩ := hdecl.pop d hd
+  rw [ht]
+  intro x hx
+  have hx' : x ∈ TrDsl.sortVars ((regular d.graph).map Var.plain) := hx
+  rw [CtfTr.mem_sortVars] at hx'
+  obtain ⟨n, _, rfl⟩ := List.mem_map.1 hx'
+  rfl
+
 /-- **C09 for Algorithm 3, the three clauses together.**  For a conditional query accepted by the validator, built by the
 public wrapper, on graphs built by `from_edges` with domains as declared and selection diagrams that agree with the target
-graph, outside the crash classes of `ctfTR_no_internal_error_partial` (`OutcomesFound`, `DstarOneWorld`,
-`OutcomeNotCondition`): `ctfTR` raises no error, and its result is
+graph, in which every outcome is found in the ancestral components under its own name (`OutcomesFound`, the ONLY crash
+class of Algorithm 3 for declared domains): `ctfTR` raises no error, and its result is
 * FAIL, or
-* `Zero()` without an event — and then `outcomes ∧ conditions` has probability 0 in every compatible functional SCM, or
+* `Zero()` without an event — and then, if `D_*` names every vertex in one world, `outcomes ∧ conditions` has probability
+  0 in every functional SCM, or
 * an expression `x` with an event — and then, if the query is in the decidable class `ctfTRSoundClass`, `x` evaluated on
   the declared domain distributions of ANY compatible family in which the conditions have positive probability, at ANY
   valuation carrying the query's values and literal subscripts, is `P*(outcomes ∧ conditions) / P*(conditions)`. -/
 theorem ctfTR_correct_partial (target : MG Name) (ds : List Domain) (o c : Event)
     (hv : validateC target ds o c = .ok ()) (hwf : target.WF) (hdecl : DomainsDeclared ds)
     (hplain : EventVarsPlain (o ++ c)) (hdom : DomainsAgree target ds)
-    (hfound : OutcomesFound target o c = true) (hone : DstarOneWorld target o c = true)
-    (hdisj : OutcomeNotCondition o c = true) :
+    (hfound : OutcomesFound target o c = true) :
     ctfTR target ds o c = .ok none ∨
     (ctfTR target ds o c = .ok (some (.zero, none)) ∧
-      ∀ (M : Fscm.Model) (ν : BaseValues), ν.Distinct → probEventOpt M ν (o ++ c) = 0) ∨
+      (DstarOneWorld target o c = true →
+        ∀ (M : Fscm.Model) (ν : BaseValues), ν.Distinct → probEventOpt M ν (o ++ c) = 0)) ∨
     (∃ x rev, ctfTR target ds o c = .ok (some (x, some rev)) ∧
       (ctfTRSoundClass target ds o c = true →
         ∀ (F : FscmFamily) (graphs : Option Name → MG Name), F.CompatibleWith target graphs (declsOf ds) →
         ∀ (ν : BaseValues) (σ σ' : Val), (∀ x, σ x < F.card x) → EventReading ν σ (o ++ c) →
           probEventOpt F.target ν c ≠ 0 →
           den (F.env graphs) σ' x σ = probEventOpt F.target ν (o ++ c) / probEventOpt F.target ν c)) := by
-  rcases ctfTR_answers_or_fails target ds o c hv hwf hdecl.wf hdom hplain hfound hone hdisj with ⟨⟨x, oev⟩, ha⟩ | hf
+  rcases ctfTR_answers_or_fails_plain target ds o c hv hwf hdecl.wf hdom hplain hfound
+      (popsPlain_of_declared ds hdecl) with ⟨⟨x, oev⟩, ha⟩ | hf
   · cases oev with
     | none =>
       refine Or.inr (Or.inl ?_)
       have hx := (ctfTR_zero_only_from_simplify target ds o c x ha).1
-      refine ⟨by rw [ha, hx], fun M ν hν => ?_⟩
+      refine ⟨by rw [ha, hx], fun hone M ν hν => ?_⟩
       exact (ctfTR_zero_sound_partial target ds o c x ha hwf hplain hone M ν hν).2
     | some rev =>
       refine Or.inr (Or.inr ⟨x, rev, ha, fun hclass F graphs hF ν σ σ' hσr hσ hpos => ?_⟩)
